@@ -1,8 +1,9 @@
 """C09 — the anchored functions TRANSLATED from the source text of the current working tree into Lean
 (`Generated/C09Src.lean`) on every run; `GenProps/C09Src.lean` proves every translated definition equal, for all
 arguments, to the definition of `Core/C09Src.lean` that the property theorems are about.  harness/py2lean2.py
-(`Translator2TN` = `Translator2T`: loops, try / except / else, hoisted raising calls, closures, plus the
-normalisation of raising list comprehensions to append-loops) is the translator; this file is the C09
+(`Translator2TH` = `Translator2T`: loops, try / except / else, hoisted raising calls, closures, plus the
+normalisation of raising list comprehensions to append-loops and the inlining of same-package helpers: expression
+helpers, one-loop generator helpers, slice objects) is the translator; this file is the C09
 vocabulary: one rule table per function (python pattern with $metavariables -> Lean template over Core/C09Src.lean).
 
   function                                   generated definition      equal to (Core/C09Src.lean)
@@ -62,7 +63,7 @@ def _functions():
     from menpo.transform.piecewiseaffine import base as pw
     from menpo.transform import WithDims
     from menpo.image import boolean as mb
-    T = P.Translator2TN
+    T = P.Translator2TH
 
     def R(**kw):
         return P.Rules2T(fn_style=True, **kw)
@@ -171,7 +172,7 @@ def defaults_table():
     from menpo.transform.base import Transform
     from menpo.image import boolean as mb
     from menpo.image import BooleanImage
-    tr = P.Translator2TN(P.Rules2T())
+    tr = P.Translator2TH(P.Rules2T())
     rows = []
     for name, fn in (("Transform.apply", Transform.apply), ("pwa_point_in_pointcloud", mb.pwa_point_in_pointcloud),
                      ("BooleanImage.constrain_to_pointcloud", BooleanImage.constrain_to_pointcloud)):
